@@ -163,7 +163,10 @@ ADDENDA = {
            "preliminary files.",
     "C13": "Added: utf8Decoder_chunkIndependent and C13_exact_utf8 (the chunking-independence hypothesis is discharged for the "
            "model's strict UTF-8 decoder); a family of real child processes (real capture files, polling, clock, signals).",
-    "C14": "Added: the in-memory histories on a traditional and a DSSE twin; scenarios of the C16 generator (placeholders and "
+    "C14": "Added: C14_world (two worlds whose files are pairwise equivalent - same payload or load error, same signature-check "
+           "result for every key of a class K, key stores closed under K - give the same verify outcome at every depth) and "
+           "C14_containers_equiv (a traditional file and an envelope with the same payload and signers are equivalent for non-gpg "
+           "keys): every assignment of the two formats gives the same outcome, as a theorem. The in-memory histories on a traditional and a DSSE twin; scenarios of the C16 generator (placeholders and "
            "parameter sets) under the three format assignments; library-only arguments of in_toto_record_stop in both formats.",
     "C15": "Added: verification shapes with zero / two inspections and a delegated step; left-over files in the work / base "
            "directories are part of the state compared.",
